@@ -21,7 +21,7 @@ ASSUMPTIONS = ["pixel (i,j) = [b0+i*ps, b0+(i+1)*ps] x [p0+j*ps, p0+(j+1)*ps] fr
                "mass by direct integration of the density: exact overlap (uniform), product of 1-D normal masses (axis-aligned), "
                "quad over the birth side of phi(x)*[conditional normal mass] (correlated, epsabs 1e-13); never bivariate-CDF inclusion-exclusion",
                "tolerance 1e-7*sum|w| (numerical-integration accuracy named by the statement)"]
-REQUIRED_NOTES = ["large-cases", "narrow-int-cases"]
+REQUIRED_NOTES = ["large-cases", "narrow-int-cases", "rescaled-unit-cases"]
 TECHNIQUE = "runtime monitoring: postcondition monitor on PersistenceImager.transform with a direct-integration pixel-mass oracle"
 
 
@@ -113,7 +113,14 @@ def run_case(ctx, k, rng):
     kkw, kdesc = imgcfg.gen_kernel(rng, geom["pixel_size"])
     wkw, wfun, nonneg = imgcfg.gen_weight(rng)
     kcls = kernel_class(kdesc)
-    ctx.begin(k, kcls, None)
+    unit = 1.0
+    if rng.random() < 0.12 and kdesc["kind"] in ("gaussian", "uniform"):
+        # the same configuration expressed in another unit (nanometres given in metres, microseconds in seconds, ...): ranges, pixel
+        # size and kernel scale together; images are equivariant, absolute tolerances inside the code are not
+        unit = float(rng.choice([1e-9, 1e-6, 1e-3, 1e3, 1e6]))
+        geom, kkw, kdesc = imgcfg.rescale(geom, kkw, kdesc, unit)
+        ctx.note("rescaled-unit-cases")
+    ctx.begin(k, kcls + ("" if unit == 1.0 else "/unit%g" % unit), None)
     try:
         ctx.ran()
         P = Imager(**geom, **kkw, **wkw)
